@@ -176,7 +176,7 @@ def indexMembers : List (String × List (String × String)) := [
 def remapMembers : List (String × List String) := [
   ("function", ["_c_wrappers", "_class", "_python_wrappers"]),
   ("wrapper", ["_function", "_parameters._type", "_return_type", "_return_value_destructor"]),
-  ("type", ["_constructors", "_derivations._base", "_derivations._downcast", "_derivations._upcast", "_destructor", "_elements", "_make_seqs", "_methods", "_nested_types", "_outer_class", "_wrapped_type"]),
+  ("type", ["_casts", "_constructors", "_derivations._base", "_derivations._downcast", "_derivations._upcast", "_destructor", "_elements", "_make_seqs", "_methods", "_nested_types", "_outer_class", "_wrapped_type"]),
   ("manifest", ["_getter", "_type"]),
   ("element", ["_clear_function", "_del_function", "_getkey_function", "_getter", "_has_function", "_insert_function", "_length_function", "_setter", "_type"]),
   ("makeSeq", ["_element_getter", "_length_getter"])
